@@ -124,7 +124,7 @@ theorem sweep_main (e : Env) (w : World) (addr : String) (d : String) (hne : add
 
 /-- where a non-MAIN source's coins are swept from -/
 def srcAddr (e : Env) (a : Account) : Option String :=
-  if a.type = tModule then e.modAddr? a.id else if a.type ≠ tInternal then some a.id else none
+  if a.type = tModule then e.modAddr? a.id else if a.type ≠ tInternal then some (canonAddr a.id) else none
 
 /-- **one non-MAIN source**: `U` grows by exactly what the source contributes (swept coins plus its
     re-queued remains) -/
@@ -152,8 +152,8 @@ theorem prepareNotMain_U (e : Env) (w w' : World) (src : Account) (c : DecCoins)
         split at hsw
         · rename_i hi
           have hsw' := Outcome.ok.inj hsw
-          have h1 : cc = (sweep e w src.id).1 := by rw [hsw']
-          have h2 : ww = (sweep e w src.id).2 := by rw [hsw']
+          have h1 : cc = (sweep e w (canonAddr src.id)).1 := by rw [hsw']
+          have h2 : ww = (sweep e w (canonAddr src.id)).2 := by rw [hsw']
           rw [h1, h2]
           apply sweep_main
           intro hh; apply hne; unfold srcAddr; simp [hm, hi, hh]
